@@ -43,11 +43,12 @@ impl Encoding for TextEncoding {
     fn content_type(&self) -> HeaderValue {
         HeaderValue::from_static("text/plain")
     }
-    fn serializer<'a>(&self, _: &'a mut Vec<u8>) -> Box<dyn SerializerState<'a> + 'a> {
-        unimplemented!("never serialized in this check")
+    // a third registered encoding with its own media type; the bytes are JSON
+    fn serializer<'a>(&self, w: &'a mut Vec<u8>) -> Box<dyn SerializerState<'a> + 'a> {
+        conjure_http::server::JsonEncoding.serializer(w)
     }
-    fn deserializer<'a>(&self, _: &'a [u8]) -> Box<dyn DeserializerState<'a> + 'a> {
-        unimplemented!("never deserialized in this check")
+    fn deserializer<'a>(&self, buf: &'a [u8]) -> Box<dyn DeserializerState<'a> + 'a> {
+        conjure_http::server::JsonEncoding.deserializer(buf)
     }
 }
 
@@ -307,6 +308,66 @@ fn run_case(rt: &ConjureRuntime, registry: &[Enc], lines: &[String]) -> Result<O
     Ok(got.map(|ct| registry.iter().position(|e| e.content_type() == ct).expect("chosen encoding is registered")))
 }
 
+/// the observation point "Content-Type of responses from StdResponseSerializer": the blocking
+/// and async serializers (and the collection serializer on a non-empty value) must produce a
+/// response in exactly the encoding negotiation chose - header and bytes - or refuse when it refuses
+fn serializers(rt: &ConjureRuntime, registry: &[Enc], lines: &[String], chosen: Option<usize>, r: &mut Report, case: &serde_json::Value) {
+    use conjure_http::server::conjure::CollectionResponseSerializer;
+    use conjure_http::server::{AsyncResponseBody, AsyncSerializeResponse, ResponseBody, SerializeResponse, StdResponseSerializer};
+    let mut headers = HeaderMap::new();
+    for l in lines {
+        match HeaderValue::from_str(l) {
+            Ok(v) => {
+                headers.append(ACCEPT, v);
+            }
+            Err(_) => return,
+        }
+    }
+    let value: Vec<i32> = vec![7, -1];
+    let observe = |ct: Option<&HeaderValue>, body: Option<&[u8]>| -> Result<Option<usize>, String> {
+        let ct = ct.ok_or("response without Content-Type")?.to_str().map_err(|e| e.to_string())?.to_string();
+        let idx = registry.iter().position(|e| e.content_type() == ct).ok_or(format!("Content-Type {} is not registered", ct))?;
+        let body = body.ok_or("response body is not a fixed buffer")?;
+        let back: Option<Vec<i32>> = match registry[idx] {
+            Enc::Smile => serde_smile::from_slice(body).ok(),
+            _ => serde_json::from_slice(body).ok(),
+        };
+        if back.as_ref() != Some(&value) {
+            return Err(format!("the body is not the value in {}", ct));
+        }
+        Ok(Some(idx))
+    };
+    let runs: Vec<(&str, Result<Result<Option<usize>, String>, String>)> = vec![
+        ("StdResponseSerializer", vcommon::catch(|| match <StdResponseSerializer as SerializeResponse<_, Vec<u8>>>::serialize(rt, &headers, value.clone()) {
+            Ok(resp) => observe(resp.headers().get(CONTENT_TYPE), match resp.body() { ResponseBody::Fixed(b) => Some(&b[..]), _ => None }),
+            Err(_) => Ok(None),
+        })),
+        ("StdResponseSerializer(async)", vcommon::catch(|| match <StdResponseSerializer as AsyncSerializeResponse<_, Vec<u8>>>::serialize(rt, &headers, value.clone()) {
+            Ok(resp) => observe(resp.headers().get(CONTENT_TYPE), match resp.body() { AsyncResponseBody::Fixed(b) => Some(&b[..]), _ => None }),
+            Err(_) => Ok(None),
+        })),
+        ("CollectionResponseSerializer", vcommon::catch(|| match <CollectionResponseSerializer as SerializeResponse<_, Vec<u8>>>::serialize(rt, &headers, value.clone()) {
+            Ok(resp) => observe(resp.headers().get(CONTENT_TYPE), match resp.body() { ResponseBody::Fixed(b) => Some(&b[..]), _ => None }),
+            Err(_) => Ok(None),
+        })),
+        ("CollectionResponseSerializer(async)", vcommon::catch(|| match <CollectionResponseSerializer as AsyncSerializeResponse<_, Vec<u8>>>::serialize(rt, &headers, value.clone()) {
+            Ok(resp) => observe(resp.headers().get(CONTENT_TYPE), match resp.body() { AsyncResponseBody::Fixed(b) => Some(&b[..]), _ => None }),
+            Err(_) => Ok(None),
+        })),
+    ];
+    for (name, got) in runs {
+        r.evaluations += 1;
+        match got {
+            Ok(Ok(g)) if g == chosen => {}
+            other => r.violation(
+                format!("C11|response|serializer-departs-from-negotiation|{}", name),
+                format!("Accept {:?} with registry {:?}: negotiation chose {:?}, {} produced {:?}", lines, registry.iter().map(|e| e.content_type()).collect::<Vec<_>>(), chosen.map(|i| registry[i].content_type()), name, other),
+                case.clone(),
+            ),
+        }
+    }
+}
+
 fn check_list(list: &[Item], registry: &[Enc], rt: &ConjureRuntime, r: &mut Report) {
     let (allowed, class) = model(Some(list), registry);
     let text: Vec<String> = list.iter().map(|i| i.text()).collect();
@@ -325,6 +386,7 @@ fn check_list(list: &[Item], registry: &[Enc], rt: &ConjureRuntime, r: &mut Repo
         match got {
             Err(p) => r.violation("C11|response|panic".to_string(), format!("response_body_encoding panicked on Accept {:?}: {}", lines, p), case),
             Ok(g) => {
+                serializers(rt, registry, &lines, g, r, &case);
                 if allowed.contains(&g) {
                     if allowed.len() == 1 {
                         r.nontrivial += 1;
